@@ -319,6 +319,8 @@ def match_domain(guard, host):
     if host is None:
         return False
     h = host
+    if ":" in h:
+        h = h.rsplit(":", 1)[0]  # the port is not part of the domain
     if h.endswith("."):
         h = h[:-1]
     g = guard[:-1] if guard.endswith(".") else guard
